@@ -1,10 +1,12 @@
 /-
-  SrcTieImplC05 — source ties (see SrcTieImpl.lean) for d2r_exp, d2r_expinv (SE2, SO3).
+  SrcTieImplC05 — source ties (see SrcTieImpl.lean) for d2r_exp, d2r_expinv (SE2, SO3, SE3) and
+  SE3 calculate_Q_dQ.
 -/
-import SmoothProps.SrcTieImpl
+import SmoothProps.SrcTieImplC04
 
 open Scalar Lin EigenSem
 
+set_option linter.unusedSectionVars false
 namespace SrcTieImpl
 variable {α : Type} [Scalar α]
 
@@ -20,5 +22,61 @@ theorem so3_d2r_exp (a : Vec α 3) : ImplSrc.SO3.d2r_exp a = SO3.d2r_exp a := by
 set_option maxRecDepth 4096 in
 theorem so3_d2r_expinv (a : Vec α 3) : ImplSrc.SO3.d2r_expinv a = SO3.d2r_expinv a := by
   simp only [SO3.d2r_expinv, memoM_eq]; tie_mat
+
+/-! SE3: `calculate_Q_dQ` whole (the pair `(Q, dQ)`: coefficient lambda, `PA PB PC`, the 3×18 table and the nine
+    column updates), `d2r_exp`, `d2r_expinv` (the latter through the opaque callee `d_matrix_product`, mapped to the
+    hand model `Derivs.d_matrix_product`) -/
+set_option maxRecDepth 8192 in
+theorem se3_calculate_Q_dQ_1 (a : Vec α 6) : (ImplSrc.SE3.calculate_Q_dQ a).1 = (SE3.calculate_Q_dQ a).1 := by
+  simp only [SE3.calculate_Q_dQ, SE3.PABC, memoM_eq]; tie_mat
+
+set_option maxRecDepth 16384 in
+set_option maxHeartbeats 4000000 in
+theorem se3_calculate_Q_dQ_2 (a : Vec α 6) : (ImplSrc.SE3.calculate_Q_dQ a).2 = (SE3.calculate_Q_dQ a).2 := by
+  simp only [SE3.calculate_Q_dQ, SE3.PABC, memoM_eq]; tie_mat
+
+theorem se3_calculate_Q_dQ (a : Vec α 6) : ImplSrc.SE3.calculate_Q_dQ a = SE3.calculate_Q_dQ a :=
+  Prod.ext (se3_calculate_Q_dQ_1 a) (se3_calculate_Q_dQ_2 a)
+
+set_option maxRecDepth 16384 in
+set_option maxHeartbeats 4000000 in
+theorem se3_d2r_exp (a : Vec α 6) : ImplSrc.SE3.d2r_exp a = SE3.d2r_exp a := by
+  simp only [ImplSrc.SE3.d2r_exp, SE3.d2r_exp, memoM_eq, so3_d2r_exp, se3_calculate_Q_dQ, tail3_tw]
+  tie_mat
+
+set_option maxRecDepth 16384 in
+set_option maxHeartbeats 4000000 in
+theorem se3_d2r_expinv (a : Vec α 6) : ImplSrc.SE3.d2r_expinv a = SE3.d2r_expinv a := by
+  simp only [ImplSrc.SE3.d2r_expinv, SE3.d2r_expinv, memoM_eq, so3_d2r_expinv, so3_dr_expinv, se3_calculate_Q_dQ, tail3_tw]
+  tie_mat
+
+/-! ### generic layer: `d2r_exp`, `d2r_expinv`, `d2l_exp`, `d2l_expinv` of LieGroupBase; `d2r_rminus` (its loop over
+`Dof` by induction, `forLoop_applyRightBlock`), `d2r_rminus_squarednorm` (through `d2_fog`, whose text is pinned and whose
+hand model `Derivs.d2_fog` is tied by execution) of derivatives_impl.hpp (see SrcTieImpl.lean) -/
+section base
+variable (G : LieModel α)
+theorem base_d2r_exp (h : G.ShortCut) (a : Vec α G.dof) : BaseSrc.d2r_exp G a = G.d2r_exp a := by
+  unfold BaseSrc.d2r_exp
+  cases hc : G.comm
+  · rfl
+  · exact (h.d2r_exp hc a).symm
+theorem base_d2r_expinv (h : G.ShortCut) (a : Vec α G.dof) : BaseSrc.d2r_expinv G a = G.d2r_expinv a := by
+  unfold BaseSrc.d2r_expinv
+  cases hc : G.comm
+  · rfl
+  · exact (h.d2r_expinv hc a).symm
+theorem base_d2l_exp (h : G.ShortCut) (a : Vec α G.dof) : BaseSrc.d2l_exp G a = G.d2l_exp a := by
+  unfold BaseSrc.d2l_exp LieModel.d2l_exp; rw [base_d2r_exp G h]
+theorem base_d2l_expinv (h : G.ShortCut) (a : Vec α G.dof) : BaseSrc.d2l_expinv G a = G.d2l_expinv a := by
+  unfold BaseSrc.d2l_expinv LieModel.d2l_expinv; rw [base_d2r_expinv G h]
+theorem derivs_d2r_rminus (h : G.ShortCut) (e : Vec α G.dof) : BaseSrc.d2r_rminus G e = Derivs.d2r_rminus G e := by
+  simp only [BaseSrc.d2r_rminus, Derivs.d2r_rminus, memoM_eq, base_dr_expinv G h, base_d2r_expinv G h]
+  exact forLoop_applyRightBlock _ _
+theorem derivs_d2r_rminus_squarednorm (h : G.ShortCut) (e : Vec α G.dof) :
+    BaseSrc.d2r_rminus_squarednorm G e = Derivs.d2r_rminus_squarednorm G e := by
+  simp only [BaseSrc.d2r_rminus_squarednorm, Derivs.d2r_rminus_squarednorm, memoM_eq, derivs_dr_rminus G h,
+    derivs_d2r_rminus G h]
+  rfl
+end base
 
 end SrcTieImpl
